@@ -15,6 +15,8 @@ RULE = ('cases = cat over every axis with 2..3 operands (different ranks, a size
         'operators); mprod single mode and lists of modes; to_ttm; conj; clone; order 1..4, f64/f32/c128. Oracle: torch.cat / F.pad / block reference / '
         'diagonal by torch.diagonal / tensordot / reshape on harness-contracted dense arrays; bit-equality on int-valued cores. The pad oracle names the '
         'failed region: interior block / fully padded corner / mixed strip. distinct = (op, structure, parameters, dtype); non-trivial = non-zero reference.')
+from ..hist import RULE_SUFFIX as _RS
+RULE = RULE + _RS
 ASSUMPTIONS = ['pad of an operator with fewer paddings than modes raises RankMismatch (an exception, not a wrong tensor): outside the workload',
                'fill values 0, 1.5, -2 (exactly representable: bit-exact comparison on int-valued cores) and 0.3, -1.7e-3 (not representable in any binary format: compared to working precision of the operand dtype)']
 REQUIRED_REACH = ['_extras:cat', '_extras:pad', '_extras:diag', '_tt_base:TT.mprod', '_tt_base:TT.to_ttm', '_tt_base:TT.conj', '_tt_base:TT.clone']
